@@ -230,6 +230,9 @@ fn iter_str(payload: &[u8], nc: u8, base_off: Option<(&Ranges, usize)>, o: &mut 
 /// scratch buffer carved out of one allocation (64 bytes apart), renders the canonical line and
 /// evaluates the C06 oracle.
 fn do_read(bytes: &[u8], hint: Option<bool>, cap: Option<usize>, o: &mut Oracle, check: bool) -> String {
+    if check && cap.map(|c| c >= MAX_PACKETSIZE).unwrap_or(false) {
+        oracle_two_step(bytes, hint, o);
+    }
     let n = bytes.len();
     let capv = cap.unwrap_or(0);
     let mut big = vec![0u8; n + 64 + capv];
@@ -314,6 +317,58 @@ fn oracle_rewrite(p: &Packet, orig: &[u8], o: &mut Oracle) {
             "C06/rewrite-differs",
             format!("bytes={} value={} rewritten={} reread={:?}", to_hex(orig), &want[..want.len().min(80)], to_hex(&written), other.map(|x| x.map(|s| s[..s.len().min(80)].to_string()))),
         ),
+    }
+}
+
+/// value or error of a read result, without warnings and slice locations
+fn outcome_str(r: Result<Result<String, PacketReadError>, String>) -> String {
+    match r {
+        Err(msg) => format!("panic({})", msg),
+        Ok(Err(e)) => format!("err {:?}", e),
+        Ok(Ok(p)) => p,
+    }
+}
+
+/// C06, the two-step path (what a caller without a scratch buffer for `read` does, e.g. a dissector):
+/// `decompress_if_needed(bytes)` into a `MAX_PACKETSIZE` buffer, then `read_panic_on_decompression` of the
+/// output.  It must not panic and must give the value / error `Packet::read(bytes)` gives; so must
+/// `Packet::read` of the output.
+fn oracle_two_step(bytes: &[u8], hint: Option<bool>, o: &mut Oracle) {
+    let mut s1 = [0u8; MAX_PACKETSIZE];
+    let mut w: Vec<Warning> = vec![];
+    let direct = outcome_str(catch(|| Packet::read(&mut w, bytes, hint, &mut s1[..]).map(|p| pkt_str(&p))));
+    let mut buf: Vec<u8> = Vec::with_capacity(MAX_PACKETSIZE);
+    let out: Vec<u8> = match catch(|| Packet::decompress_if_needed(bytes, &mut buf)) {
+        Err(msg) => {
+            o.fail("C06/reader-panics", format!("decompress_if_needed bytes={} panic={}", to_hex(bytes), msg));
+            return;
+        }
+        Ok(Err(_)) => {
+            if direct != "err Compression" {
+                o.fail("C06/two-step-read-differs", format!("bytes={} decompress_if_needed fails, read gives {}", to_hex(bytes), &direct[..direct.len().min(80)]));
+            }
+            return;
+        }
+        Ok(Ok(false)) => bytes.to_vec(),
+        Ok(Ok(true)) => buf.clone(),
+    };
+    let mut w2: Vec<Warning> = vec![];
+    let two = outcome_str(catch(|| Packet::read_panic_on_decompression(&mut w2, &out, hint).map(|p| pkt_str(&p))));
+    if two.starts_with("panic(") {
+        // without a buffer a compressed *input* may panic by contract; the output of decompress_if_needed may not
+        if out != bytes || !direct.starts_with("panic(") {
+            o.fail("C06/reader-panics", format!("read_panic_on_decompression on the output of decompress_if_needed: bytes={} out={} {}", to_hex(bytes), to_hex(&out[..out.len().min(16)]), two));
+        }
+        return;
+    }
+    let mut s3 = [0u8; MAX_PACKETSIZE];
+    let mut w3: Vec<Warning> = vec![];
+    let again = outcome_str(catch(|| Packet::read(&mut w3, &out, hint, &mut s3[..]).map(|p| pkt_str(&p))));
+    if two != direct || again != direct {
+        o.fail(
+            "C06/two-step-read-differs",
+            format!("bytes={} direct={} two-step={} read(out)={}", to_hex(bytes), &direct[..direct.len().min(60)], &two[..two.len().min(60)], &again[..again.len().min(60)]),
+        );
     }
 }
 
@@ -1294,6 +1349,44 @@ for kind in 0..6u64 {
                 writeln!(w, "read f 1400 {}", to_hex(&bytes)).unwrap();
             }
             writeln!(w, "wchunks 64 {}.1:6162 {}.0:-", ack, 1023 - ack).unwrap();
+        }
+        // validly compressed datagrams of every packet kind (the writer only compresses chunk packets, a
+        // peer may compress anything): header with the compression flag + compress(body [+ token]);
+        // exercised through read, read_panic_on_decompression, decompress_if_needed and the two-step path
+        for tok in [None, Some(Token([0x12, 0x34, 0x56, 0x78]))] {
+            let mut bodies: Vec<(u8, Vec<u8>)> = vec![
+                (0x10, vec![0]),
+                (0x10, if tok.is_some() { b"\x01TKEN".to_vec() } else { vec![1] }),
+                (0x10, if tok.is_some() { b"\x02TKEN".to_vec() } else { vec![2] }),
+                (0x10, vec![3]),
+                (0x10, b"\x04bye\0".to_vec()),
+                (0x10, vec![4]),
+                (0x10, vec![9]),
+                (0x00, vec![]),
+                (0x40, vec![0x00, 0x20, 1, 2]),
+                (0x00, vec![0x40, 0x70, 0xcf]),
+            ];
+            let (p, _, _) = gen_chunk_payload(&mut rng, 600);
+            bodies.push((0x00, p));
+            bodies.push((0x00, vec![0u8; 1393]));
+            bodies.push((0x20, b"\xff\xff\xffinfo".to_vec()));
+            for (flags, body) in bodies {
+                let mut plain = body.clone();
+                if let Some(t) = tok {
+                    plain.extend_from_slice(&t.0);
+                }
+                let mut bytes = vec![0x80u8 | flags | 0x02, 0x01, if flags == 0 { 1 } else { 0 }];
+                bytes.extend(HUFFMAN.compress_into_vec(&plain));
+                let hint = if tok.is_some() { "t" } else { "f" };
+                for h in [hint, "n"] {
+                    writeln!(w, "read {} 1400 {}", h, to_hex(&bytes)).unwrap();
+                    writeln!(w, "read {} 2048 {}", h, to_hex(&bytes)).unwrap();
+                    writeln!(w, "readp {} {}", h, to_hex(&bytes)).unwrap();
+                }
+                writeln!(w, "din 1400 {}", to_hex(&bytes)).unwrap();
+                writeln!(w, "din 2048 {}", to_hex(&bytes)).unwrap();
+                writeln!(w, "init {}", to_hex(&bytes)).unwrap();
+            }
         }
         // D17 band: connless datagrams around the writer's limit
         for n in 1385..=1401usize {
